@@ -40,7 +40,7 @@ type C15Case struct {
 }
 
 func stallPoints(stack string) []string {
-	post := []string{"nothing", "head-k", "head-k", "between", "head-two-parts"}
+	post := []string{"nothing", "head-k", "head-k", "between", "head-two-parts", "second-head-k", "pipelined-head-k"}
 	switch stack {
 	case "tls":
 		return append([]string{"tls-nothing", "tls-hello-k", "tls-hello-k"}, post...)
@@ -53,7 +53,7 @@ func stallPoints(stack string) []string {
 	case "plain-longidle":
 		// idle-timeout 2.5 s: tells a read-header-timeout that is really applied from one that is
 		// replaced by the idle deadline (limit + 1.5 s < idle)
-		return []string{"head-k", "head-two-parts"}
+		return []string{"head-k", "head-two-parts", "second-head-k", "pipelined-head-k"}
 	}
 	return post
 }
@@ -316,6 +316,26 @@ func (e *c15Env) stall(stack string, s C15Stall, vid string) (r stallResult) {
 			r.setup = fmt.Errorf("exchange before the idle phase: %v", err)
 			return
 		}
+		wait()
+	case "second-head-k":
+		// a later request on a persistent connection is protected like the first one
+		send([]byte(head))
+		br := bufio.NewReader(conn)
+		conn.SetReadDeadline(time.Now().Add(5 * time.Second))
+		if m, err := ReadResponse(br, "GET"); err != nil || m.Status != 200 {
+			r.setup = fmt.Errorf("exchange before the second head: %v", err)
+			return
+		}
+		r.limit, r.name = c15Header, "read-header-timeout (second request of the connection)"
+		r.ref = time.Now()
+		send([]byte(head[:clampK(len(head)-1)]))
+		wait()
+	case "pipelined-head-k":
+		// a complete request and the first k bytes of the next head in one segment: the partial head is already
+		// buffered when the proxy turns to it, and the client never finishes it
+		r.limit, r.name = c15Header, "read-header-timeout (partial head pipelined behind a complete request)"
+		r.ref = time.Now()
+		send([]byte(head + head[:clampK(len(head)-1)]))
 		wait()
 	default:
 		r.setup = fmt.Errorf("stall point %q does not exist on stack %q", s.Point, stack)
